@@ -52,12 +52,15 @@ func runC20(c *ctx) {
 		"every public start function (17) x every single bad parameter and every pair of bad parameters from different slots, started through the real handler constructors under recover; " +
 		"a handler returned for invalid parameters is run with honest peers through the pump; non-trivial = at least one parameter differs from the valid base; distinct by (start function, bad parameters)"
 	if c.replay != "" {
-		c.c20ReplayFile()
+		if !c.c20OrderReplayFile() { // c20_order.go
+			c.c20ReplayFile()
+		}
 		return
 	}
 	c.c20CorrSession()
 	c.c20CorrCanSign()
 	c.c20Search(nil)
+	c.c20Order(nil) // c20_order.go: the same participant set listed in different orders by the parties of one session
 }
 
 // =====================================================================================================
